@@ -108,19 +108,19 @@ theorem genLoopR_ok (keep : Bool) (mask : Nat) (fixed : Bool) (raw : Option Byte
       obtain ⟨htodo, hnoraw, hrest⟩ := scanSeg_spec todo _ _ _ _ hs
       have hwfseg : ∀ s ∈ seg, Sliced.WF s := fun x hx => hwf x (by rw [htodo]; exact List.mem_append_left _ hx)
       have hwfrest : ∀ s ∈ rest, Sliced.WF s := fun x hx => hwf x (by rw [htodo]; exact List.mem_append_right _ hx)
-      cases he : (insertSliced mask fixed pLeft 0 0 seg).err with
+      cases he : (insertSliced mask fixed pLeft (segStart lastLine) 0 seg).err with
       | some e => rw [he] at hg; simp at hg
       | none =>
         rw [he] at hg
         simp only [] at hg
-        by_cases hr : (insertSliced mask fixed pLeft 0 0 seg).rest ≠ []
+        by_cases hr : (insertSliced mask fixed pLeft (segStart lastLine) 0 seg).rest ≠ []
         · rw [if_pos hr] at hg
           simp only [Except.ok.injEq, Prod.mk.injEq, List.append_eq_nil_iff] at hg
           exact absurd hg.2.2.1.1 hr
         · rw [if_neg hr] at hg
-          have hr0 : (insertSliced mask fixed pLeft 0 0 seg).rest = [] := by simpa using hr
-          obtain ⟨us0, h1, h2, h3, h4, h5, h6⟩ := insertSliced_ok mask fixed seg hwfseg pLeft 0 0 he hr0
-          have hpl := insertSliced_pLeft mask fixed seg hwfseg pLeft 0 0 he hr0
+          have hr0 : (insertSliced mask fixed pLeft (segStart lastLine) 0 seg).rest = [] := by simpa using hr
+          obtain ⟨us0, h1, h2, h3, h4, h5, h6⟩ := insertSliced_ok mask fixed seg hwfseg pLeft (segStart lastLine) 0 he hr0
+          have hpl := insertSliced_pLeft mask fixed seg hwfseg pLeft (segStart lastLine) 0 he hr0
           have hitems0 := unitsItems_of_lines fixed us0 _ h3 h2
           have hgood0 : ∀ u ∈ us0, GoodItemUnit fixed u := fun u hu => goodItem_of_goodUnit fixed u (h3 u hu)
           have hasm0 : ∀ tail, assembleGo none ((sent mask seg).map Item.line ++ tail)
@@ -131,7 +131,7 @@ theorem genLoopR_ok (keep : Bool) (mask : Nat) (fixed : Bool) (raw : Option Byte
           have hperm0 : ∀ s ∈ seg, s.id &&& mask ≠ 0 → PermittedAny raw sp s := fun s hs hm => Or.inl (h6 s hs hm)
           rw [h1] at h5 hpl
           -- last_du_size after the sliced segment
-          have hdu0 : DuOK keep lastDu us0 (nextLastDu keep lastDu (insertSliced mask fixed pLeft 0 0 seg).lastDu) := by
+          have hdu0 : DuOK keep lastDu us0 (nextLastDu keep lastDu (insertSliced mask fixed pLeft (segStart lastLine) 0 seg).lastDu) := by
             rw [h4]; unfold DuOK nextLastDu
             cases keep
             · simp only [Bool.false_eq_true, if_false]
@@ -164,8 +164,8 @@ theorem genLoopR_ok (keep : Bool) (mask : Nat) (fixed : Bool) (raw : Option Byte
             by_cases hm : mask &&& SL_VBI625 = 0
             · -- the raw line is masked out: the frame continues behind it
               rw [if_pos hm] at hg
-              cases hrec : genLoopR keep mask fixed raw sp fuel (insertSliced mask fixed pLeft 0 0 seg).pLeft ll
-                  (nextLastDu keep lastDu (insertSliced mask fixed pLeft 0 0 seg).lastDu) st rest' with
+              cases hrec : genLoopR keep mask fixed raw sp fuel (insertSliced mask fixed pLeft (segStart lastLine) 0 seg).pLeft ll
+                  (nextLastDu keep lastDu (insertSliced mask fixed pLeft (segStart lastLine) 0 seg).lastDu) st rest' with
               | error e => rw [hrec] at hg; simp at hg
               | ok y =>
                 obtain ⟨o, du', left, st''⟩ := y
@@ -235,7 +235,7 @@ theorem genLoopR_ok (keep : Bool) (mask : Nat) (fixed : Bool) (raw : Option Byte
                 have hv := hsp sp' rfl
                 obtain ⟨ho, hend, hspl⟩ := validSp_bounds sp' hv
                 rw [if_neg (by omega)] at hg
-                cases hir : insertRaw (insertSliced mask fixed pLeft 0 0 seg).pLeft smp fixed VIDEOSTD_625 rawLine.line
+                cases hir : insertRaw (insertSliced mask fixed pLeft (segStart lastLine) 0 seg).pLeft smp fixed VIDEOSTD_625 rawLine.line
                     ((sp'.offset + 2 ^ 32 - BT601_625_OFFSET) % 2 ^ 32) sp'.spl true with
                 | error e => rw [hir] at hg; simp at hg
                 | ok rr =>
@@ -250,7 +250,7 @@ theorem genLoopR_ok (keep : Bool) (mask : Nat) (fixed : Bool) (raw : Option Byte
                     obtain ⟨hlr, usr, isr, r1, rne, r2, r3, r4, r5, r6, r7, r8⟩ :=
                       insertRaw_ok _ fixed rawLine.line hline sp' hv smp hsmplen rr hir hrl0
                     cases hrec : genLoopR keep mask fixed (some rawb) (some sp') fuel rr.pLeft ll
-                        (nextLastDu keep (nextLastDu keep lastDu (insertSliced mask fixed pLeft 0 0 seg).lastDu) rr.lastDu)
+                        (nextLastDu keep (nextLastDu keep lastDu (insertSliced mask fixed pLeft (segStart lastLine) 0 seg).lastDu) rr.lastDu)
                         { st with left := 0 } rest' with
                     | error e => rw [hrec] at hg; simp at hg
                     | ok y =>
